@@ -89,3 +89,14 @@ Theorem kotlin_prim_agrees_width : forall p,
   option_map erase_sign (kt_name_abi (kt_prim_ffi p)) = Some (erase_sign (rust_prim_abi p)) /\
   option_map erase_sign (kt_name_abi (kt_prim_native p)) = Some (erase_sign (rust_prim_abi p)).
 Proof. destruct p; vm_compute; split; reflexivity. Qed.
+
+(* struct fields and result / option records (fmt_primitive_type_native) have the width of the Rust primitive under the JNA
+   field rule: in particular bool is not declared Boolean there *)
+Lemma kotlin_field_prim_agrees_width p :
+  option_map erase_sign (kt_field_abi (kt_prim_native p)) = Some (erase_sign (rust_prim_abi p)).
+Proof. destruct p; vm_compute; reflexivity. Qed.
+
+(* the parameter spelling of bool would be wrong as a field: 4 bytes against 1 *)
+Lemma kotlin_boolean_field_is_wide :
+  option_map (fun a => fst (size_align a)) (kt_field_abi "Boolean") = Some 4%N /\ fst (size_align (rust_prim_abi PBool)) = 1%N.
+Proof. split; vm_compute; reflexivity. Qed.
